@@ -788,7 +788,11 @@ where
 
         Poll::Ready(res.map_err(|err| match err {
             SendingError::Send(base) => SendError::RemoteSend(base.kind),
-            SendingError::Dropped => SendError::Closed(()),
+            // The value was dropped together with the queue: report the failure that ended forwarding, if any.
+            SendingError::Dropped => match self.tx.as_ref() {
+                Some(tx) => tx.queue_gone(()),
+                None => SendError::Closed(()),
+            },
         }))
     }
 
